@@ -39,8 +39,10 @@ def gen_leaf(rnd, env):
         if rnd.random() < 0.15:
             v = -v
         return apm.num(v, rnd.choice([None, None, "d", "x", "0o", "b", "^X", "^O", "^B", "^D"]))
-    if r < 0.60:
+    if r < 0.55:
         return ("sym", rnd.choice(env["consts"]))
+    if r < 0.60:
+        return ("sym", rnd.choice(env["aliases"]))
     if r < 0.72:
         return ("sym", rnd.choice(env["labels"]))
     if r < 0.78:
@@ -79,7 +81,9 @@ def gen_expr(rnd, env, depth):
 def build_env(rnd):
     """Statement skeleton: labels at known places, constants defined before and after, local labels in the scope of the probes."""
     from vlib import apm
-    env = {"consts": [f"kc{i}" for i in range(8)], "labels": ["la0", "la1", "la2"], "locals": ["1$", "7$"], "shifts": ["sh0", "sh1", "sh2"]}
+    env = {"consts": [f"kc{i}" for i in range(8)], "labels": ["la0", "la1", "la2"], "locals": ["1$", "7$"], "shifts": ["sh0", "sh1", "sh2"],
+           # address-valued constants: a chain al2 -> al1 -> al0 -> la2 whose definitions may come before their targets exist
+           "aliases": ["al0", "al1", "al2"], "alias_k": [rnd.randrange(0, 9) for _ in range(3)]}
     values = {}
     for c in env["consts"]:
         values[c] = rnd.choice([0, 1, 2, 3, 5, 64, 255, 1000, 0o177777, 1 << 20, rnd.randrange(0, 1 << 16), -rnd.randrange(1, 1000)])
@@ -95,6 +99,14 @@ def build_program(rnd, env, exprs, directive=".dword"):
     before = [apm.assign(c, apm.num(v)) for c, v in env["values"].items() if rnd.random() < 0.5]
     names_before = {s.name for s in before}
     after = [apm.assign(c, apm.num(v)) for c, v in env["values"].items() if c not in names_before]
+    k = env["alias_k"]
+    alias_defs = [apm.assign("al0", ("bin", "+", ("sym", "la2"), apm.num(k[0]))), apm.assign("al1", ("bin", "+", ("sym", "al0"), apm.num(k[1]))),
+                  apm.assign("al2", ("bin", "+", ("sym", "al1"), apm.num(k[2])))]
+    order = rnd.choice(["top", "top-reversed", "bottom", "bottom-reversed"])
+    if "reversed" in order:
+        alias_defs.reverse()
+    if order.startswith("top"):
+        before = alias_defs + before
     stmts = [apm.link(apm.num(base))] + before + [apm.label("la0"), apm.label("1$"), apm.data(".word", apm.num(1))]
     half = len(exprs) // 2
     for e in exprs[:half]:
@@ -104,6 +116,8 @@ def build_program(rnd, env, exprs, directive=".dword"):
         stmts.append(apm.data(directive, e))
     # la1 / la2 must be in another local scope only after the probes: put them at the end (ordinary labels end the scope)
     stmts += [apm.label("la1"), apm.data(".word", apm.num(2)), apm.label("la2")] + after
+    if order.startswith("bottom"):
+        stmts += alias_defs
     return apm.Program([apm.SrcFile("f0.mac", stmts)])
 
 
